@@ -698,7 +698,7 @@ class Fn:
                 if rv[0] == 'discr':
                     pl = rv[1]
                     info['discr_of'] = pl
-                    ty = self.place_type(pl)
+                    ty = rv[2] if len(rv) > 2 else self.place_type(pl)
                     info['enum_ty'] = ty
                     labels = ('enum', ty)
         info['labels'] = labels
